@@ -126,8 +126,8 @@ BD = dict(name='BurndownAnalysis.Consume(one branch)', probe='kbd', fam=['bd', '
           case_start=r'^init ', nontrivial=nt_has('mod'),
           rule='several files, 0-3 developers, canonical and broken scripts, wrong declared line counts')
 DAG = dict(name='BurndownAnalysis.Consume/Fork/Merge', probe='kdag', fam=['dag', 'fixed'], quick=2000, thorough=60000,
-           case_start=r'^init ', nontrivial=nt_has('fork', 'merge'), silent=r'^(begin|add|rm|mod) ',
-           rule='DAG runs with forks of arity 2-3, merge-mode replays, deletions/additions inside merges')
+           case_start=r'^init ', nontrivial=nt_has('fork', 'merge'), silent=r'^(begin|add|rm|mod|ren) ',
+           rule='DAG runs with forks of arity 2-3, merge-mode replays, deletions/additions/renames with edits inside merges')
 GC = dict(name='collectGarbage+insertHibernateBoot', probe='k04', fam=['pl'], quick=1500, thorough=40000,
           nontrivial=nt_any, rule='random DAGs of 3..27 commits x distance 1..6; stage outputs of one planner run')
 RUN = dict(name='Pipeline.Run event log', probe='k14', fam=['pl'], quick=3000, thorough=80000, nontrivial=nt_any,
@@ -251,7 +251,7 @@ PROPS = {
     'C07': dict(corr=[MG, DAG]),
     'C08': dict(corr=[DAG, RBC, RBW, PFORK, TKR]),
     'C09': dict(corr=[RUN, HB, HBF, K09B, E01]),
-    'C10': dict(level='translation_validation', corr=[RES, DEP, E10, E10S]),
+    'C10': dict(level='translation_validation', corr=[RES, DEP, TS, E10, E10S]),
     'C11': dict(corr=[LN, K11D, E11, E11W]),
     'C12': dict(corr=[LN, LNC, ONES, DC, RUN, E14]),
     'C13': dict(corr=[RN, RNH, RNHR]),
